@@ -2340,12 +2340,17 @@ where
                         .collect()
                 } else {
                     // leave out the padding byte of a value with odd length
-                    let len_all = (rows as usize)
-                        * (cols as usize)
-                        * (samples_per_pixel as usize)
-                        * (bits_allocated.div_ceil(8) as usize)
-                        * (number_of_frames as usize);
-                    if data.len() == len_all + 1 && len_all % 2 == 1 {
+                    let len_all = [
+                        cols as usize,
+                        samples_per_pixel as usize,
+                        bits_allocated.div_ceil(8) as usize,
+                        number_of_frames as usize,
+                    ]
+                    .into_iter()
+                    .try_fold(rows as usize, usize::checked_mul);
+                    if let Some(len_all) =
+                        len_all.filter(|len| data.len() == len + 1 && len % 2 == 1)
+                    {
                         data[..len_all].to_vec()
                     } else {
                         data.to_vec()
